@@ -940,7 +940,85 @@ def outputs_differ(recs1, recs2, tol=1e-9):
 
 
 # ----------------------------------------------------------------------------- structural correspondence
-def gen_struct_case(rng, typ, r, c, nadds, npar=None, allow_bad=True):
+def uf_forest(p, nz):
+    """the array set[] that the scan of build_connectivity_matrix leaves for the off-diagonal non-zero cells nz
+    (0-based VNA ports) of a p x p S matrix: row-major scan, the smaller leader leads, find() as coded
+    redirects the element it was called with (and nothing else on the path) to its leader"""
+    s = list(range(p))
+
+    def find(i):
+        l = i
+        while s[l] != l:
+            l = s[l]
+        s[i] = l
+        return l
+    for r in range(p):
+        for c in range(p):
+            if r != c and (r, c) in nz:
+                i, j = find(r), find(c)
+                if i < j:
+                    s[j] = i
+                elif i > j:
+                    s[i] = j
+    return s
+
+
+def uf_depth(p, nz):
+    """depth of that forest: 1 = every element points at its leader, >= 2 = a chain is left, i.e. the second
+    pass of build_connectivity_matrix needs find() and comparing set[i] with set[j] is not enough"""
+    s = uf_forest(p, nz)
+    d = 0
+    for i in range(p):
+        n, l = 0, i
+        while s[l] != l:
+            l = s[l]
+            n += 1
+        d = max(d, n)
+    return d
+
+
+def forest_pattern(rng, p, ports, k, tries=40):
+    """off-diagonal non-zero cells (indices of the standard) of a k-port standard on the VNA ports `ports`:
+    sparse, directed (non-reciprocal) or chain-like; of `tries` random candidates the one whose union-find
+    scan leaves the deepest forest.  Returns (cells, depth)."""
+    cells = [(a, b) for a in range(k) for b in range(k) if a != b]
+    best, bestd = set(), 0
+    for _ in range(tries):
+        nz = set()
+        x = rng.random()
+        if x < 0.4:
+            # a path through all ports in random order, every link in one random direction (or both)
+            order = list(range(k))
+            rng.shuffle(order)
+            for a, b in zip(order, order[1:]):
+                y = rng.random()
+                if y < 0.4:
+                    nz.add((a, b))
+                elif y < 0.8:
+                    nz.add((b, a))
+                else:
+                    nz.add((a, b))
+                    nz.add((b, a))
+            if rng.random() < 0.3 and k >= 4:
+                nz.discard(rng.choice(sorted(nz)))             # two components
+        elif x < 0.8:
+            for cell in rng.sample(cells, min(len(cells), rng.randint(max(2, k - 2), k + 1))):
+                nz.add(cell)
+        else:
+            # reciprocal sparse pattern
+            for a, b in rng.sample(cells, min(len(cells), rng.randint(2, k))):
+                nz.add((a, b))
+                nz.add((b, a))
+        full = set((ports[a] - 1, ports[b] - 1) for a, b in nz)
+        d = uf_depth(p, full)
+        if d > bestd or not best:
+            best, bestd = nz, d
+        if bestd >= 2 and rng.random() < 0.7:
+            break
+    return best, bestd
+
+
+def gen_struct_case(rng, typ, r, c, nadds, npar=None, allow_bad=True, forest_prob=0.4):
     """Random sequence of vnacal_new_add_* calls (valid and invalid) for the structural tie.
     Many distinct parameters (10..40, so that the per-calibration parameter hash is resized and indices
     collide modulo 16 / 32), sparse non-reciprocal S patterns with explicit zeros, permuted port maps.
@@ -969,6 +1047,7 @@ def gen_struct_case(rng, typ, r, c, nadds, npar=None, allow_bad=True):
             return rng.choice(hot)
         return rng.choice(user)
     adds = []
+    forest_depth = 0
     for n_ in range(nadds):
         fn = rng.choice(["sr", "dr", "th", "ln", "mm", "mm", "mm"])
         bad = allow_bad and rng.random() < 0.2
@@ -1026,12 +1105,22 @@ def gen_struct_case(rng, typ, r, c, nadds, npar=None, allow_bad=True):
             toks = [token() for _ in range(k)]
         elif fn == "ln":
             toks = [token(), token(True), token(True), token()]
+        elif (sr == sc and k >= 3 and k <= p and not bad and mapflag and len(set(ports)) == k
+              and rng.random() < forest_prob):
+            # mapped matrix with explicit zero cells: a sparse directed / chain-like pattern chosen such that the
+            # union-find scan of build_connectivity_matrix leaves a forest with two (or more) levels
+            nzc, depth = forest_pattern(rng, p, ports, k)
+            toks = [token() if a_ == b_ else (rng.choice(user) if (a_, b_) in nzc else "Z")
+                    for a_ in range(k) for b_ in range(k)]
+            forest_depth = max(forest_depth, depth)
         else:
             toks = [token(a_ != b_) for a_ in range(max(sr, 0)) for b_ in range(max(sc, 0))]
         if n_ == 0 and hot and rng.random() < 0.6 and toks and fn != "th":
             toks[0] = hot[0]                 # referenced before the first resize of the hash
         adds.append({"fn": fn, "sr": sr, "sc": sc, "diag": diag, "ports": ports, "mapflag": mapflag,
                      "br": br, "bc": bc, "ab": ab, "ar": ar, "ac": ac, "toks": toks})
+    if adds:
+        adds[0]["forest_depth"] = forest_depth      # deepest union-find forest planted in this case (statistics)
     return adds, handle, npar
 
 
